@@ -268,3 +268,30 @@ def strings_over(alphabet, maxlen):
     for n in range(maxlen + 1):
         for t in itertools.product(alphabet, repeat=n):
             yield "".join(t)
+
+
+def permuted_examples(rng: random.Random) -> str:
+    """outlines whose examples blocks reuse the same row values under different / permuted headers,
+    with placeholders in name, step text, data table cells, doc string content and media type"""
+    hs = rng.sample(["a", "b", "c", "from", "to", "a.b", "x y"], rng.randrange(1, 4))
+    vals = [rng.choice(["1", "2", "x y", "<a>", "\\\\", "$1", "v"]) for _ in hs]
+    tmpl = " ".join(f"<{h}>" for h in rng.sample(hs + ["a", "b", "zz"], min(3, len(hs) + 1)))
+    lines = ["Feature: f", "  Background:", "    Given bg <a> <from>"] if rng.random() < 0.5 else ["Feature: f"]
+    lines += [f"  Scenario Outline: name {tmpl}", f"    Given step {tmpl}", "      | c <a> | <b> |  <to> |",
+              f"    And doc {tmpl}", '      """' + rng.choice(["", "<a>", "<from>", "<b>"]),
+              rng.choice(["      fixed body", f"      body {tmpl}", ""]), '      """']
+    for _ in range(rng.randrange(2, 4)):
+        order = hs[:]
+        if rng.random() < 0.7:
+            rng.shuffle(order)
+        if rng.random() < 0.3:
+            order = [rng.choice(["a", "b", "c", "to", "from"]) for _ in order]
+        tag = rng.choice(["", "    @e1 @e1", "    @e2"])
+        if tag:
+            lines.append(tag)
+        lines.append("    Examples:")
+        if rng.random() < 0.85:
+            lines.append("      | " + " | ".join(order) + " |")
+            for _ in range(rng.randrange(0, 3)):
+                lines.append("      | " + " | ".join(vals if rng.random() < 0.7 else [rng.choice(["1", "2", "9"]) for _ in vals]) + " |")
+    return "\n".join(lines) + "\n"
